@@ -44,6 +44,13 @@ class CallGen:
             d = ast.Dict(keys=[C("k")], values=[C(self.r.randint(1, 9))])
             mk = lambda recv: ast.Call(func=attr(recv, name), args=[] if kw else [astx.clone(d)], keywords=[ast.keyword(arg=kw, value=astx.clone(d))] if kw else [])  # noqa
             cu, cx = mk(cu), mk(cx)
+        if self.r.random() < 0.12 and isinstance(lu, ast.Lambda) and not lu.args.kwonlyargs:
+            # the operator's function has a further, keyword-only parameter whose DEFAULT holds a typed call (evaluated where the
+            # lambda is written): a call site of the query like any other
+            self.default_sites = getattr(self, "default_sites", 0) + 1
+            du, dx = self.func_call([], 3)
+            for la, d in ((lu, du), (lx, dx)):
+                la.args.kwonlyargs, la.args.kw_defaults = [ast.arg(arg="r_")], [d]
         if self.r.random() < 0.12:
             self.kw_ops = getattr(self, "kw_ops", 0) + 1
             k = OPERATOR_FUNCTION_KEYWORD[op]
@@ -299,6 +306,8 @@ def run_case(ctx, rnd, model, ds, i):
         kind = "keywords-left" if "keywords" in (d or "") else ("argument-count" if "len" in (d or "") else "argument-differs")
         ctx.violation(f"not-normalised:{kind}", f"{opname}({mode}): {text} emitted {astx.unparse(out)[:250]} expected {astx.unparse(lam_x)[:250]} :: {d}", witness)
         return
+    if getattr(g, "default_sites", 0):
+        ctx.count("typed-calls-in-defaults-of-operator-functions", g.default_sites)
     if len(ctx.samples) < 4 and nt and rnd.random() < 0.02:
         ctx.sample({"lambda": text, "emitted": astx.unparse(out), "call_sites": g.sites})
 
